@@ -316,6 +316,12 @@ func c20Run(r *core.Run) {
 		long = &trust.RetryHTTPSGetter{Timeout: timeout, MaxRetryDelay: maxDelay}
 		r.Probe("calls_through_one_long_lived_getter")
 	}
+	// Two independent retrying getters are asked for the SAME URL at overlapping times: one whose back end keeps
+	// failing, one whose back end is healthy.  Each returns what ITS wrapped getter gives, within ITS own bounds.
+	if r.Item("two-getters-one-url") {
+		c20TwoGetters(r, url, hdr, body0)
+		r.EndItem()
+	}
 	gaveUp := 0
 	for k := 0; ; k++ {
 		ff := k
@@ -525,7 +531,70 @@ func init() {
 			return nCells + 240
 		},
 		Run:         c20Run,
-		MustProbe:   []string{"gave_up_within_bound", "wait_capped_at_max", "success_after_failures_4+", "calls_through_one_long_lived_getter", "successful_response_with_empty_body", "failures_wrap_context_errors"},
+		MustProbe:   []string{"gave_up_within_bound", "wait_capped_at_max", "success_after_failures_4+", "calls_through_one_long_lived_getter", "successful_response_with_empty_body", "failures_wrap_context_errors", "two_getters_one_url"},
 		SimTimeNote: "sum of fake-clock time elapsed inside RetryHTTPSGetter.Get over all bubbles",
 	})
+}
+
+func c20TwoGetters(r *core.Run, url string, hdr map[string][]string, body []byte) {
+	tA, dA := time.Duration(1+r.T.Draw(5))*time.Second, time.Duration(20+r.T.Draw(200))*time.Millisecond
+	tB, dB := time.Duration(100+r.T.Draw(400))*time.Millisecond, time.Duration(10+r.T.Draw(50))*time.Millisecond
+	startB := time.Duration(r.T.Draw(int(tA/time.Millisecond)-50)) * time.Millisecond
+	gA := &c20Getter{failFirst: -1, url: url, horizon: 10 * tA}
+	gB := &c20Getter{failFirst: 0, hdr: hdr, body: body, url: url, horizon: 10 * tA}
+	var resA, resB c20Result
+	var elB time.Duration
+	leak := ""
+	func() {
+		defer func() {
+			if p := recover(); p != nil {
+				leak = fmt.Sprint(p)
+			}
+		}()
+		synctest.Test(r.TB, func(*testing.T) {
+			t0 := time.Now()
+			gA.t0, gB.t0 = t0, t0
+			var wg sync.WaitGroup
+			run := func(g *c20Getter, timeout, maxDelay, start time.Duration, res *c20Result, el *time.Duration) {
+				defer wg.Done()
+				defer func() {
+					if p := recover(); p != nil {
+						res.panicV = fmt.Sprint(p)
+					}
+				}()
+				time.Sleep(start)
+				s0 := time.Now()
+				rg := &trust.RetryHTTPSGetter{Timeout: timeout, MaxRetryDelay: maxDelay, Getter: g}
+				res.hdr, res.body, res.err = rg.Get(url)
+				if el != nil {
+					*el = time.Since(s0)
+				}
+			}
+			wg.Add(2)
+			go run(gA, tA, dA, 0, &resA, nil)
+			go run(gB, tB, dB, startB, &resB, &elB)
+			wg.Wait()
+		})
+	}()
+	r.Eval()
+	r.State("two-getters-one-url")
+	r.Eventf("two getters one URL: A(T=%v,D=%v, fails for ever) B(T=%v,D=%v, healthy, starts at %v) -> A err=%v attempts=%d; B err=%v attempts=%d elapsed=%v", tA, dA, tB, dB, startB, resA.err != nil, len(gA.attempts), resB.err != nil, len(gB.attempts), elB)
+	r.Fault("sched:two_getters_same_url_overlapping", true)
+	r.Probe("two_getters_one_url")
+	if leak != "" {
+		r.Violate("C20:two-getters:goroutines-left-blocked", "after two overlapping Get calls for one URL goroutines were still blocked: %s", leak)
+		return
+	}
+	if resB.panicV != "" || resA.panicV != "" {
+		r.Violate("C20:two-getters:panic", "Get panicked: %s %s", resA.panicV, resB.panicV)
+		return
+	}
+	if resB.err != nil || len(gB.attempts) == 0 || !bytes.Equal(resB.body, body) {
+		r.Violate("C20:two-getters:other-getters-outcome", "getter B (healthy back end, Timeout %v) was asked for a URL that getter A (failing back end, Timeout %v) was still retrying: B returned err=%v after %v having made %d attempt(s) with its own wrapped getter — it must return its own wrapped getter's first success", tB, tA, resB.err, elB, len(gB.attempts))
+	} else if elB > tB+dB {
+		r.Violate("C20:two-getters:late", "getter B (healthy back end) took %v, beyond its own Timeout %v + MaxRetryDelay %v, while another getter was retrying the same URL", elB, tB, dB)
+	}
+	if resA.err == nil {
+		r.Violate("C20:two-getters:success-invented", "getter A's back end never succeeded, yet its Get returned nil error (while getter B fetched the same URL successfully)")
+	}
 }
